@@ -63,6 +63,7 @@ def prep(case, out):
     for k in ("hdr", "ext", "resp", "rows"):
         r[k] = skipped(out.get(k, "skipped"))
     r["typed"] = out.get("typed", [])
+    r["drain"] = out.get("drain") or {"capped": 1, "items": 0, "announced": 0, "ended": 1, "vec_over": 0}
     if r["hdr"].get("ok") == 1 and "rest" not in r["hdr"]:
         r["hdr"]["rest"] = 0
     if r["ext"].get("ok") == 1:
